@@ -213,5 +213,14 @@ def evalText (octal : Bool) (env : String → Option Int) (s : String) : Outcome
         | .ok v => .value v
         | .error x => .evalError x
 
+/-- `p_constant_def` (prophy parser): a constant holds what 64 bits can hold, signed or unsigned -/
+def constOk (v : Int) : Bool := -((2 ^ 63 : Nat) : Int) ≤ v && v < ((2 ^ 64 : Nat) : Int)
+
+/-- `const NAME = <text>;` in the prophy language: the expression's value, refused outside `constOk` -/
+def constText (env : String → Option Int) (s : String) : Outcome :=
+  match evalText true env s with
+  | .value v => if constOk v then .value v else .evalError .outOfRange
+  | o => o
+
 end Expr
 end Prophy
